@@ -157,6 +157,22 @@ pub struct World {
     pub handles: i32,
     /// An abandonment happened since the last exact at-rest check.
     pub abandon_mark: bool,
+    /// Timeouts / missing runtimes are part of the scenario (C10).
+    pub allow_timeouts: bool,
+    /// Virtual time (maintained by the H-time driver) and a log of env calls.
+    pub now: u64,
+    pub env_log: Vec<EnvLog>,
+}
+
+#[derive(Clone, Debug)]
+pub struct EnvLog {
+    pub get: Option<usize>,
+    pub site: Site,
+    pub start: u64,
+    pub end: Option<u64>,
+    pub completed: bool,
+    pub gate: Option<usize>,
+    pub fired_at: Option<u64>,
 }
 
 thread_local! {
@@ -202,6 +218,9 @@ pub fn init_world(cfg: PoolCfg, base: &[&'static str]) {
             overlap: false,
             handles: 0,
             abandon_mark: false,
+            allow_timeouts: false,
+            now: 0,
+            env_log: Vec::new(),
         })
     });
 }
@@ -454,6 +473,8 @@ impl World {
         if let Some(g) = gi {
             self.gets[g].in_env = Some(site);
         }
+        let now = self.now;
+        self.env_log.push(EnvLog { get: gi, site, start: now, end: None, completed: false, gate: None, fired_at: None });
         let _ = self.hooks_of(site);
     }
 
@@ -461,6 +482,11 @@ impl World {
     /// it was abandoned (cancelled or unwound).
     fn env_exit(&mut self, who: usize, site: Site, obj: Option<usize>, result: Option<Result<(), u32>>) {
         let gi = self.cur_get(who);
+        let now = self.now;
+        if let Some(l) = self.env_log.iter_mut().rev().find(|l| l.get == gi && l.site == site && l.end.is_none()) {
+            l.end = Some(now);
+            l.completed = result.is_some();
+        }
         if let Some(g) = gi {
             self.gets[g].in_env = None;
             if let Some(Err(n)) = result {
@@ -614,7 +640,10 @@ impl World {
             }
         }
         if let Some((k, m)) = bad {
-            self.violate(&["C04"], k, m);
+            let timeout_related = k.starts_with("unexpected-");
+            if !(self.allow_timeouts && timeout_related) {
+                self.violate(&["C04"], k, m);
+            }
         }
         self.gets[gi].outcome = Some(GetOut::Err(desc));
     }
@@ -821,11 +850,25 @@ async fn env_async(site: Site, obj: Option<usize>, m: Option<Metrics>) -> Result
         Out::Ok => Ok(()),
         Out::Err => Err(next_errno()),
         Out::PendOk => {
-            sched::gate(&format!("{:?}->ok", site), auto).await;
+            let gate = sched::gate(&format!("{:?}->ok", site), auto);
+            let gid = gate.id();
+            w(|w| {
+                if let Some(l) = w.env_log.last_mut() {
+                    l.gate = Some(gid);
+                }
+            });
+            gate.await;
             Ok(())
         }
         Out::PendErr => {
-            sched::gate(&format!("{:?}->err", site), auto).await;
+            let gate = sched::gate(&format!("{:?}->err", site), auto);
+            let gid = gate.id();
+            w(|w| {
+                if let Some(l) = w.env_log.last_mut() {
+                    l.gate = Some(gid);
+                }
+            });
+            gate.await;
             Err(next_errno())
         }
         Out::Never => {
@@ -908,13 +951,21 @@ fn mk_hook(site: Site, asynchronous: bool) -> Hook<Mgr> {
 /// Builds the pool for the current world. Nothing may call into the manager
 /// or the hooks while this runs (C08).
 pub fn build_pool() -> Pool<Mgr> {
+    build_pool_with(deadpool::managed::Timeouts::new(), None).expect("build without timeouts never fails")
+}
+
+pub fn build_pool_with(timeouts: deadpool::managed::Timeouts, runtime: Option<deadpool::Runtime>) -> Result<Pool<Mgr>, deadpool::managed::BuildError> {
     let cfg = w(|w| {
         w.begin_op(0, OpKind::Build);
         w.cfg.clone()
     });
     let mut b = Pool::builder(Mgr)
         .max_size(cfg.max_size)
+        .timeouts(timeouts)
         .queue_mode(if cfg.lifo { QueueMode::Lifo } else { QueueMode::Fifo });
+    if let Some(rt) = runtime {
+        b = b.runtime(rt);
+    }
     for (i, h) in cfg.pre_recycle.iter().enumerate() {
         b = b.pre_recycle(mk_hook(Site::PreRecycle(i as u8), h.asynchronous));
     }
@@ -924,7 +975,7 @@ pub fn build_pool() -> Pool<Mgr> {
     for (i, h) in cfg.post_create.iter().enumerate() {
         b = b.post_create(mk_hook(Site::PostCreate(i as u8), h.asynchronous));
     }
-    let pool = b.build().expect("build without timeouts never fails");
+    let pool = b.build();
     w(|w| {
         if w.events > 0 || !w.objs.is_empty() {
             w.violate(&["C08"], "work-during-build", "building the pool invoked the manager or a hook".to_string());
